@@ -10,7 +10,8 @@ EXPLANATION = (
     "is_errored/MaxIterations/MaxTime with the six reduced tolerances position by position; (R4) rollback "
     "save/reset symmetry over the six reported scalars + all five iterate components; (R5) vector lengths from "
     "the user's A; (R6) iterations written only by reset/save_scalars from the loop counter; (R3p/R1n/R7) the shared predicate tables, NaN-objective rule and units premises are re-run under this id. NOT decided: "
-    "agreement 'to rounding' of recomputed values.")
+    "agreement 'to rounding' of recomputed values."
+    " (R3t) also checks the tolerance plumbing of the full-accuracy check (Solved is judged with tol_feas, not reduced_tol_feas).")
 ASSUMPTIONS = ['rustc MIR construction and trait resolution are correct']
 
 
@@ -27,6 +28,7 @@ def run(ctx, rep, tier):
         shared.status_provenance(rep, F, E, tag, 'C03.R3', statuses=('AlmostSolved', 'AlmostPrimalInfeasible', 'AlmostDualInfeasible'),
                                  full_fn='check_convergence_almost', slot=9)
         shared.tolerance_plumbing(rep, F, tag, 'C03.R3t', which='almost')
+        shared.tolerance_plumbing(rep, F, tag, 'C03.R3t', which='full')
         shared.almost_only_reduced(rep, F, G, tag, 'C03.R3g')
         shared.rollback_symmetry(rep, F, tag, 'C03.R4')
         shared.unscale_before_copy(rep, F, E, tag, 'C03.R5')
